@@ -127,7 +127,7 @@ def install_gc_points(mode: str, k: int) -> None:
 
 def _reqkey(op: dict) -> str:
     over = op.get("over") or {}
-    return op["pid"] + ("" if not over else "|" + cm.canon(over))
+    return op["pid"] + ("" if not over else "|" + cm.canon(over)) + ("" if op.get("mut") is None else f"|mut={int(op['mut'])}")
 
 
 def _struct_diff(a: Any, b: Any) -> str:
@@ -184,6 +184,7 @@ def run(plan: dict) -> dict:
     cost: dict[str, float] = {}
     nsites = 9000
     late_done = False
+    mut_state: dict[str, int] = {}
     for idx, op in enumerate(plan["ops"]):
         kind = op["op"]
         executed.append(op)
@@ -226,6 +227,14 @@ def run(plan: dict) -> dict:
             continue
         kw = prog.to_onnx_kwargs()
         kw.update(op.get("over") or {})
+        if op.get("mut") is not None:
+            # the user updates the live instances in place (training step / checkpoint load): the request
+            # is "these objects in state s"; what was exported from them before must not matter
+            lib.apply_state(pid.rsplit("::", 1)[1], int(op["mut"]))
+            stats["probe_in_place_state_applied"] += 1
+            if mut_state.get(pid) not in (None, int(op["mut"])):
+                stats["probe_export_after_in_place_update_of_exported_instances"] += 1
+            mut_state[pid] = int(op["mut"])
         fault = op.get("fault")
         raised = None
         proto = None
@@ -322,6 +331,9 @@ def requests(registry: list[str], tier: str, seed: int) -> list[dict]:
     chosen = biased[:nb] + others[: max(0, n - nb)]
     reqs = [{"op": "convert", "pid": f"fx::c14::{x}"} for x in FX]
     reqs += [{"op": "convert", "pid": "fx::c14::flat", "over": {"enable_double_precision": True}}, {"op": "convert", "pid": "fx::c14::net", "over": {"opset": 21}}]
+    # live instances updated in place between exports: one request per (program, state); adjacent entries
+    # land in different canonical interpreters, so every reference is a first export of those objects
+    reqs += [{"op": "convert", "pid": f"fx::c14::{n}", "mut": st} for n in ("ublock_twins", "block_twins") for st in (0, 1, 2, 3)]
     reqs += [{"op": "convert", "pid": p} for p in chosen]
     return reqs
 
@@ -337,6 +349,11 @@ def gen_run(seed: int, run: int, reqs: list[dict], n_meas: int) -> dict:
     hashseed = 0 if run % 7 == 0 else r.getrandbits(32)
     import_perm = None if run % 3 == 0 else r.getrandbits(32)
     picked = r.sample(reqs, min(len(reqs), n_meas))
+    muts = [q for q in reqs if q.get("mut") is not None]
+    if muts:
+        for q in r.sample(muts, min(2, len(muts))):
+            if q not in picked:
+                picked.insert(r.randrange(len(picked) + 1), q)
     ops: list[dict] = []
     late = r.random() < 0.4
     for q in picked:
@@ -363,8 +380,11 @@ def gen_run(seed: int, run: int, reqs: list[dict], n_meas: int) -> dict:
         elif u < 0.62 and late:
             ops.append({"op": "decorate_late"})
             ops.append({"op": "convert", "pid": "fx::c14::late"})
+        if q.get("mut") is not None and r.random() < 0.8:
+            # export the same live objects in another state first, then update them in place
+            ops.append({**q, "mut": r.choice([s_ for s_ in (0, 1, 2, 3) if s_ != q["mut"]])})
         op = dict(q)
-        if r.random() < 0.2:
+        if r.random() < 0.2 and q.get("mut") is None:
             op["fresh"] = True
         ops.append(op)
         for _ in range(r.choice([0, 0, 0, 1, 2])):
@@ -407,6 +427,15 @@ def main(tier: str) -> int:
             vb = b.get("digests", {}).get(key)
             if "digest" in va:
                 reference[key] = {"digest": va["digest"], "eligible": bool(vb and vb.get("digest") == va["digest"])}
+                if key.startswith("fx::") and vb and vb.get("digest") and vb["digest"] != va["digest"]:
+                    # fixture requests are seeded by construction: two canonical interpreters (same hash seed,
+                    # same import order, no history) that disagree on one means the export depends on something
+                    # nobody controls (clock, pid, address) - reported as a mismatch of the second copy
+                    # against the first, replayable as [that request] with the first copy's digest as reference
+                    op_ = next((o for o in canon_plans[2 * s + 1]["ops"] if _reqkey(o) == key), None)
+                    if op_ is not None:
+                        canon_plans[2 * s + 1].setdefault("reference", {})[key] = {"digest": va["digest"], "eligible": True}
+                        b.setdefault("violations", []).append({"sig": f"C14|digest_mismatch|req={key}", "cls": "digest_mismatch", "detail": f"two canonical interpreters disagree on a seeded fixture request: {va['digest']} vs {vb['digest']}", "replay_ops": [op_]})
             else:
                 reference[key] = {"digest": None, "eligible": False, "raised": va.get("raised")}
     # quick tier: leave out requests whose canonical conversion is slow
